@@ -399,7 +399,7 @@ def run(ctx):
                     run_jobs.append(L.run_job(after, epi, gl, args, fuel, len_))
                     run_meta.append((name, p, epi, ep["Name"], gl, args, after_names))
     dbg('differential runs: %d jobs' % len(run_jobs))
-    rout = L.run_model_parallel(exe, run_jobs)
+    rout = L.run_grouped(exe, run_jobs)
     dbg('differential runs done')
 
     def judge_after(b, job_after, fuel):
@@ -555,7 +555,8 @@ def run(ctx):
         ctx.violation("the Gallina model of %s (Passes/Compact.v) and the Go pass disagree on %s: %s\n"
                       "(the theorems of Props/C13.v are about the model; no input on which BEFORE and AFTER behave differently was found)"
                       % (p, name, why), files={"input.wgsl": src}, found_input=False,
-                      key=vkey("model", p, name, why.split(": model")[0] if name in gen_by_name else None), broken="correspondence model/implementation for %s" % p)
+                      key=vkey("model", p, name, "/".join(x for x in why.split(": model")[0].split(" at ")[-1].split("/") if x and not x.isdigit())
+                               if name in gen_by_name else None), broken="correspondence model/implementation for %s" % p)
     if broken:
         ctx.violation(broken, found_input=False, broken=broken, key="coq")
 
